@@ -13,6 +13,7 @@ import (
 	"reflect"
 	"runtime"
 	"runtime/debug"
+	"strconv"
 	"strings"
 	"testing"
 	"time"
@@ -538,4 +539,29 @@ var spec = ev.Spec[Case]{
 }
 
 func TestProp(t *testing.T)   { ev.Check(t, spec) }
-func TestReplay(t *testing.T) { ev.Replay(t, spec) }
+func TestReplay(t *testing.T) {
+	// a crasher saved by the native fuzzer ("go test fuzz v1" corpus file) is replayed as a crl case
+	if p := os.Getenv("VERIF_REPLAY"); p != "" {
+		if b, err := os.ReadFile(p); err == nil && bytes.HasPrefix(b, []byte("go test fuzz v1")) {
+			lines := strings.SplitN(string(b), "\n", 3)
+			if len(lines) >= 2 && strings.HasPrefix(lines[1], "[]byte(") {
+				q := strings.TrimSuffix(strings.TrimPrefix(strings.TrimSpace(lines[1]), "[]byte("), ")")
+				data, err := strconv.Unquote(q)
+				if err != nil {
+					t.Fatalf("cannot parse fuzz corpus file: %v", err)
+				}
+				c := Case{Target: "crl", Kind: "fuzz", Data: []byte(data)}
+				if len(lines) >= 3 && strings.HasPrefix(strings.TrimSpace(lines[2]), "int(") {
+					// FuzzAKI corpus entry: ([]byte, int)
+					n, _ := strconv.Atoi(strings.TrimSuffix(strings.TrimPrefix(strings.TrimSpace(lines[2]), "int("), ")"))
+					c = Case{Target: "chain", Kind: "fuzz", Data: []byte(data), Alg: ((n % 5) + 5) % 5}
+				}
+				if err := spec.Run(c, ev.NewCtx()); err != nil {
+					t.Fatalf("C07 violated on replay: %v", err)
+				}
+				return
+			}
+		}
+	}
+	ev.Replay(t, spec)
+}
